@@ -37,6 +37,23 @@ theorem levels_spec (m d : Nat) : d ∈ Gen.C12.levels m ↔ (1 ≤ d ∧ d ≤ 
   · rintro ⟨h1, h2⟩
     exact ⟨d - 1, by omega, by omega⟩
 
+/-- the regenerated level loop of `write_reg` visits exactly the levels `1 … maxdepth` -/
+theorem regLevels_spec (m d : Nat) : d ∈ Gen.C12.regLevels m ↔ (1 ≤ d ∧ d ≤ m) := by
+  simp only [Gen.C12.regLevels, regLevelsHand, Py.range, Nat.one_ne_zero, if_false, Nat.div_one, Nat.mul_one, List.mem_map,
+    List.mem_range]
+  constructor
+  · rintro ⟨k, hk, rfl⟩
+    omega
+  · rintro ⟨h1, h2⟩
+    exact ⟨d - 1, by omega, by omega⟩
+
+/-- the regenerated value of the MOCORDER card is the region depth -/
+theorem mocOrderOf_eq (m : Nat) : Gen.C12.mocOrderOf m = m := by
+  first
+    | rfl
+    | (simp only [Gen.C12.mocOrderOf, mocOrderHand]; done)
+    | (simp only [Gen.C12.mocOrderOf, mocOrderHand]; omega)
+
 /-! ### the property -/
 
 /-- **decode_encode**: the standard decoder recovers (order, pixel) from the exported number, for
@@ -122,16 +139,16 @@ theorem mocorder {r : Region} (hv : Valid r) {u : Nat} (hu : u ∈ uniq r) :
   rw [mem_uniq] at hu
   obtain ⟨d, hd, p, hp, rfl⟩ := hu
   rw [decode_encode (hv.range _ _ hp).2.2]
-  exact ⟨rfl, hd.1, hd.2⟩
+  exact ⟨mocOrderOf_eq r.m, hd.1, by rw [show mocOrder r = r.m from mocOrderOf_eq r.m]; exact hd.2⟩
 
 /-- **reg_polys**: the DS9 export has one polygon per stored pixel (and only those) -/
 theorem reg_polys {r : Region} (hv : Valid r) (d p : Nat) : (d, p) ∈ regPolys r ↔ p ∈ r.pd d := by
-  simp only [regPolys, List.mem_flatMap, List.mem_range'_1, List.mem_map, Prod.mk.injEq]
+  simp only [regPolys, List.mem_flatMap, regLevels_spec, List.mem_map, Prod.mk.injEq]
   constructor
   · rintro ⟨d', _, p', hp', rfl, rfl⟩; exact hp'
   · intro hp
     have h := hv.range _ _ hp
-    exact ⟨d, ⟨h.1, by omega⟩, p, hp, rfl, rfl⟩
+    exact ⟨d, ⟨h.1, h.2.1⟩, p, hp, rfl, rfl⟩
 
 /-- **save_load**: `load(save(r))` is `r` (pickle is trusted to keep values and the aliasing) -/
 theorem save_load (r : Region) : step r .saveLoad = .ok (r, .none) := rfl
